@@ -26,7 +26,7 @@ ASSUMPTIONS = [
 ]
 SIZES = {"quick": 1500, "thorough": 10000}
 
-DEPS = ["a.z", "a.b.x", "a.b.y", "a.param", "a.b.param", "c.x", "c.y", "c.param"]
+DEPS = ["a.z", "a.b.x", "a.b.y", "a.param", "a.b.param", "c.x", "c.y", "c.param", "a", "c"]     # the last two: the root parameters themselves
 UNRES = "<unresolved>"
 
 _v = st.integers(0, 2)
@@ -54,7 +54,7 @@ def _case(draw):
     if "Sub" in parents and draw(st.booleans()):
         # the subclass reaches through a root none of the inherited methods uses, and the plain parent is used first
         methods = [sorted(draw(st.sets(st.sampled_from(DEPS[:5]), min_size=1, max_size=3))) for _ in range(nm)]
-        sub_method = sorted(draw(st.sets(st.sampled_from(DEPS[5:]), min_size=1, max_size=2)))
+        sub_method = sorted(draw(st.sets(st.sampled_from(DEPS[5:8]), min_size=1, max_size=2)))
         prefix = [["attach_mid", draw(st.integers(0, 2)), parents.index("Top")],
                   ["attach_c", draw(st.integers(0, 3)), parents.index("Sub")],
                   ["set_leaf", draw(st.integers(0, 3)), draw(st.sampled_from(["x", "y"])), draw(_v), "attr"]]
@@ -277,8 +277,10 @@ def execute(case):
                     res.dontcare += 1       # the identical (non-comparable) object assigned again: a changes-only watcher may fire
                     continue
                 if changed and n != 1:
+                    both = [r for r in ("a", "c") if r in deps and any(d.startswith(r + ".") for d in deps)]
+                    mark = "[root-and-leaf-dependency] " if (n == 2 and both and k in ("attach_mid", "attach_c")) else ""
                     res.fail("C07.missed_or_duplicate_call" if n == 0 else "C07.duplicate_call",
-                             f"{tag}: {who}m{i}{deps}: the values reached through the current path changed "
+                             f"{mark}{tag}: {who}m{i}{deps}: the values reached through the current path changed "
                              f"({[(key, b[key], a[key]) for key in sorted(changed)][:4]!r}) but the method was called {n}x")
                 elif not changed and n != 0:
                     res.fail("C07.spurious_call", f"{tag}: {who}m{i}{deps}: nothing reached through the current path changed, yet the "
@@ -300,3 +302,12 @@ def execute(case):
         res.label("old_and_new_assigned_after_replacement")
     res.nontrivial = len(hist["assigned_after_replace"]) >= 2 or hist["same_sub"]
     return res
+
+
+def _region_root_and_leaf(case, v):
+    """KF-C07-7: a method that depends on a root parameter itself ('a') and on something reached through it ('a.x'): replacing
+    the root object by one with a differing leaf value runs the method twice (one watcher for the parameter, one for the path)."""
+    return v.clause == "C07.duplicate_call" and "[root-and-leaf-dependency]" in v.detail
+
+
+REGIONS = {"root_and_leaf_dependency_fire_twice": _region_root_and_leaf}
